@@ -328,6 +328,20 @@ def structure_noise(sql, rng):
     return sql
 
 
+def structure_family():
+    """Systematic statement-level shapes (seed-independent): a few base queries x {plain, wrapped in brackets with and
+    without line breaks / comments next to the brackets, several statements, comment before the terminator} x rule sets."""
+    bases = ["SELECT 1", "SELECT a, b FROM t WHERE a = 1", "select a from t1 union select a from t2",
+             "INSERT INTO t (a) VALUES (1)"]
+    shapes = ["{q};\n", "({q});\n", "(\n    {q}\n);\n", "(\n    {q} -- c\n);\nSELECT 2;\n", "( {q} /* c */ )\n;\n",
+              "(\n    -- lead\n    {q}\n    -- trail\n);\n", "{q} -- c\n;\nSELECT 2;\n", "{q};;\n{q}\n", "(({q}));\n",
+              "{q}\n;\n\n\n"]
+    for q in bases:
+        for sh in shapes:
+            for rules in ("all", "core", "convention"):
+                yield {"dialect": "ansi", "sql": sh.replace("{q}", q), "rules": rules, "origin": "structure-family"}
+
+
 def sprinkle_comments(sql, rng, p=0.12):
     """Layout noise the G-sql generator does not produce: comments in the middle of clauses (after commas, operators,
     keywords).  Inserted only at existing blanks outside string literals and comments, so the query stays valid."""
